@@ -3,11 +3,11 @@
    Model: model/Entity.v (entityNode.run after fix d657973).  [expand e] is what the
    walker emits (Err for an unknown default status filter / duplicate summary name),
    [compile e] adds the reference resolution of j5convert. *)
-From Coq Require Import String List NArith Bool.
+From Coq Require Import String List NArith Bool Permutation.
 From J5V.lib Require Import Outcome Strcase.
-From J5V.model Require Import Entity.
+From J5V.model Require Import Entity EntityClient.
 From J5V.gen Require EntityGen.
-From J5V.proofs Require Import StrcaseProofs EntityProofs EntityGenProofs.
+From J5V.proofs Require Import StrcaseProofs EntityProofs EntityGenProofs EntityReadmeProofs EntityClientProofs.
 Import ListNotations.
 Local Open Scope N_scope.
 
@@ -17,13 +17,17 @@ Definition C17_full_statement : Prop :=
     (* exactly the documented components, in order, named from the entity name *)
     map skel cs = spec_skeleton e
     (* every internal reference resolves inside the expansion or the implicit imports *)
-    /\ closed cs = true /\ compile e = Ok cs
+    (* (the user's own object references must name something: user_refs_ok) *)
+    /\ (user_refs_ok e (defined cs) = true ->
+        closed cs = true
+        /\ (fields_ok e = true -> query_params_ok e = true -> command_params_ok e = true -> compile e = Ok cs))
     (* the same entity annotation on every part that carries one *)
     /\ Forall (eq (snake_name e)) (psm_entities cs)
     /\ Forall (eq (snake_name e)) (service_entities cs)
     /\ Forall (eq (full_name e)) (topic_entities cs)
     (* the schemas file holds Keys, Data, State, EventType, Event with the documented shapes *)
-    /\ (exists fl, msgs_of_file 0 cs = [keys_msg e; data_msg e; state_msg e fl; event_type_msg e; event_msg e]).
+    /\ (exists fl, msgs_of_file 0 cs =
+          [keys_msg e; data_msg e; state_msg e fl; event_type_msg e; event_msg e] ++ map schema_msg (e_schemas e)).
 
 Theorem C17_full : C17_full_statement.
 Proof.
@@ -31,8 +35,8 @@ Proof.
   destruct (same_annotation e fl) as [A1 [A2 A3]].
   repeat split; try assumption.
   - apply expand_skeleton.
-  - apply expand_closed.
-  - rewrite compile_expand. exact H.
+  - now apply expand_closed.
+  - intros Hok Hq Hc. pose proof (compile_errors e _ H) as E. rewrite H0, Hok, Hq, Hc in E. exact E.
   - exists fl. apply main_file_messages.
 Qed.
 Print Assumptions C17_full.
@@ -45,14 +49,51 @@ Proof. exact expand_skeleton. Qed.
 Print Assumptions C17_components.
 
 (* 2. closedness, for ALL declarations (no camel-stability hypothesis is needed after the
-      fix: definition and reference sites compute the same name) *)
-Theorem C17_closed : forall e fl, closed (expand_with e fl) = true.
+      fix: definition and reference sites compute the same name): every reference that
+      entity.go creates resolves; the file is closed exactly when the user's own object
+      references (data/event/command/summary/schema fields of type object:<Name>) do *)
+Theorem C17_closed : forall e fl,
+  user_refs_ok e (defined (expand_with e fl)) = true -> closed (expand_with e fl) = true.
 Proof. exact expand_closed. Qed.
 Print Assumptions C17_closed.
 
-Theorem C17_compile_is_expand : forall e, compile e = expand e.
+Theorem C17_closed_only_if : forall e fl,
+  closed (expand_with e fl) = true -> user_refs_ok e (defined (expand_with e fl)) = true.
+Proof. exact closed_user_refs. Qed.
+Print Assumptions C17_closed_only_if.
+
+Theorem C17_closed_scalars : forall e fl,
+  forallb (fun u => negb (is_ref_field u)) (all_ufields e) = true -> closed (expand_with e fl) = true.
+Proof. exact expand_closed_scalars. Qed.
+Print Assumptions C17_closed_scalars.
+
+(* fields_ok: no user-declared field is both optional and required/primary (buildProperty);
+   *_params_ok: every ":name" part of a method path is a request field (visitServiceMethodNode) *)
+Theorem C17_compile_is_expand : forall e,
+  (forall fl, user_refs_ok e (defined (expand_with e fl)) = true) ->
+  fields_ok e = true -> query_params_ok e = true -> command_params_ok e = true -> compile e = expand e.
 Proof. exact compile_expand. Qed.
 Print Assumptions C17_compile_is_expand.
+
+Theorem C17_compile_errors : forall e cs, expand e = Ok cs ->
+  compile e = if user_refs_ok e (defined cs) then
+                if fields_ok e then
+                  if query_params_ok e && command_params_ok e then Ok cs
+                  else Err "missing field in request"
+                else Err "cannot be both required and optional"
+              else Err "type not found".
+Proof. exact compile_errors. Qed.
+Print Assumptions C17_compile_errors.
+
+(* the generated Get/List/Events methods never miss a path field: their path parameters are
+   request properties (keys without '/', a base path without ":name" parts) *)
+Theorem C17_query_params_ok : forall e,
+  clean_path (query_base e) = query_base e ->
+  path_params (query_base e) = [] ->
+  Forall (fun k => no_slash (uf_name (k_def k)) = true) (e_keys e) ->
+  query_params_ok e = true.
+Proof. exact query_params_always_ok. Qed.
+Print Assumptions C17_query_params_ok.
 
 Theorem C17_expand_total : forall e, is_panic (expand e) = false /\ expand e <> OutOfFuel.
 Proof. exact expand_total. Qed.
@@ -70,7 +111,8 @@ Print Assumptions C17_same_annotation.
 (* 4. State and Event: metadata + flattened keys + data/status, or + the event oneof *)
 Theorem C17_main_file : forall e fl,
   msgs_of_file 0 (expand_with e fl) =
-    [keys_msg e; data_msg e; state_msg e fl; event_type_msg e; event_msg e].
+    [keys_msg e; data_msg e; state_msg e fl; event_type_msg e; event_msg e]
+    ++ map schema_msg (e_schemas e).
 Proof. exact main_file_messages. Qed.
 Print Assumptions C17_main_file.
 
@@ -131,7 +173,9 @@ Theorem C17_query_service : forall e,
 Proof. exact query_service_methods. Qed.
 Print Assumptions C17_query_service.
 
+(* (clean_path base = base: the base path has no empty elements, so path.Join changes nothing) *)
 Theorem C17_get_events_paths : forall e,
+  clean_path (query_base e) = query_base e ->
   Forall (fun k => no_slash (uf_name (k_def k)) = true) (e_keys e) ->
   nth 0 (query_paths e) [] =
     match get_keys e with
@@ -143,6 +187,59 @@ Theorem C17_get_events_paths : forall e,
 Proof. exact get_events_paths. Qed.
 Print Assumptions C17_get_events_paths.
 
+(* for ordinary declarations (identifier names, package without ':', no baseUrlPath override)
+   the paths are literally /<pkg>/<snake name>/q/{k}.. and .../events over the primary+shard keys *)
+Theorem C17_default_paths : forall e,
+  e_base_url e = [] -> ident (e_name e) = true -> no_colon (e_pkg e) = true ->
+  clean_path (query_base e) = query_base e ->
+  Forall (fun k => ident (uf_name (k_def k)) = true) (e_keys e) ->
+  nth 0 (query_paths e) [] = query_base e ++ flat_map (fun u => 47 :: brace u) (get_keys e)
+  /\ nth 2 (query_paths e) [] =
+       query_base e ++ flat_map (fun u => 47 :: brace u) (get_keys e) ++ bs "/events"
+  /\ query_params_ok e = true.
+Proof. exact default_paths. Qed.
+Print Assumptions C17_default_paths.
+
+(* component names are proto identifiers: ToCamel yields letters and digits only and, for an
+   identifier starting with a letter, starts with a capital *)
+Theorem C17_component_names_alnum : forall e suffix,
+  forallb alnum (component_name e suffix) = true.
+Proof. exact component_names_alnum. Qed.
+Print Assumptions C17_component_names_alnum.
+
+Theorem C17_camel_name_starts_cap : forall e c r,
+  e_name e = c :: r -> is_letter c = true -> ident (c :: r) = true ->
+  exists c' t, camel_name e = c' :: t /\ is_cap c' = true.
+Proof. exact camel_name_starts_cap. Qed.
+Print Assumptions C17_camel_name_starts_cap.
+
+Theorem C17_list_path : forall e,
+  e_base_url e = [] -> ident (e_name e) = true -> no_colon (e_pkg e) = true ->
+  clean_path (query_base e) = query_base e ->
+  Forall (fun k => ident (uf_name (k_def k)) = true) (e_keys e) ->
+  nth 1 (query_paths e) [] = query_base e ++ flat_map (fun u => 47 :: brace u) (list_keys e)
+  /\ list_keys e = map k_def (filter (fun k => is_key_field (k_def k) && k_shard k) (e_keys e)).
+Proof. exact list_path. Qed.
+Print Assumptions C17_list_path.
+
+(* the generated names never collide with each other; with distinct UpperCamel event names
+   the event oneof's options are distinct as well, so events <-> options is a bijection *)
+Theorem C17_generated_names_distinct : forall e,
+  NoDup [component_name e (bs "Keys"); component_name e (bs "Data"); component_name e (bs "Status");
+         component_name e (bs "State"); component_name e (bs "EventType"); component_name e (bs "Event")]
+  /\ NoDup [query_prefix e ++ bs "GetRequest"; query_prefix e ++ bs "GetResponse";
+            query_prefix e ++ bs "ListRequest"; query_prefix e ++ bs "ListResponse";
+            query_prefix e ++ bs "EventsRequest"; query_prefix e ++ bs "EventsResponse"].
+Proof. exact generated_names_distinct. Qed.
+Print Assumptions C17_generated_names_distinct.
+
+Theorem C17_event_options_distinct : forall e,
+  Forall (fun ev => upper_word (ev_name ev) = true) (e_events e) ->
+  NoDup (map ev_name (e_events e)) ->
+  NoDup (map f_json (m_fields (event_type_msg e))) /\ NoDup (map fst (m_nested (event_type_msg e))).
+Proof. exact event_options_distinct. Qed.
+Print Assumptions C17_event_options_distinct.
+
 (* 7. statuses are numbered 1..n in declaration order after <PREFIX>UNSPECIFIED = 0
       (the hypothesis excludes a first status that itself ends in UNSPECIFIED, which
       visitEnumNode puts in slot 0) *)
@@ -153,6 +250,65 @@ Theorem C17_status_numbering : forall p l,
        nth_error (status_values p l) (S k) = Some (status_value_name p (nth k l []), N.of_nat (S k)).
 Proof. exact status_numbering. Qed.
 Print Assumptions C17_status_numbering.
+
+(* default status filters always name values of the status enum (after fix 705ef70) *)
+Theorem C17_default_filters_are_statuses : forall e fl f,
+  default_filters e (requested_filters e) = Some fl -> In f fl ->
+  In f (map fst (status_values (status_prefix e) (e_status e))).
+Proof. exact default_filters_are_enum_values. Qed.
+Print Assumptions C17_default_filters_are_statuses.
+
+(* the second observable: what the real j5client derives (one StateEntity) agrees with
+   the descriptors: same entity name, State schema, primary keys in declaration order,
+   one event per declared event, the command services, the query service and its paths *)
+Theorem C17_client_view : forall e fl,
+  let c := client_view e in
+  ce_name c = snake_name e
+  /\ ce_schema c = e_pkg e ++ [46] ++ m_name (state_msg e fl)
+  /\ ce_primary_key c = map uf_name (primary_keys e)
+  /\ ce_events c = map f_json (m_fields (event_type_msg e))
+  /\ length (ce_events c) = length (e_events e)
+  /\ map fst (ce_commands c) = map (fun cmd => command_service_name e cmd ++ bs "Service") (e_commands e)
+  /\ ce_query c = query_prefix e ++ bs "QueryService"
+  /\ map (fun m => http_rule_path (snd m)) (ce_query_methods c) = query_paths e
+  /\ map fst (ce_query_methods c) = [query_prefix e ++ bs "Get"; query_prefix e ++ bs "List"; query_prefix e ++ bs "Events"].
+Proof. exact client_view_consistent. Qed.
+Print Assumptions C17_client_view.
+
+(* the grouping done by the client (model/EntityClient.v: findPSMOptions, includeEntity, the service
+   loop, StateEntity.ToJ5Proto): the package's objects are visited in Go map order, so the theorem
+   quantifies over EVERY order: always exactly one state entity with the declared name, State
+   schema, primary keys in declaration order, one event per declared event, the query service
+   with Get/List/Events and the declared command services in order *)
+Theorem C17_client_groups_any_order : forall e fl objs,
+  Permutation (main_messages (expand_with e fl)) objs ->
+  client_of_ordered msg_entity (e_pkg e) (expand_with e fl) objs = Some [grouping_view e].
+Proof. exact client_groups_any_order. Qed.
+Print Assumptions C17_client_groups_any_order.
+
+(* the defect repaired by fix 2072988: with the pre-fix inference of findPSMOptions an object
+   embedding the keys is a second KEYS candidate; for one visiting order the reported primary
+   key is the declared one, for another it is empty *)
+Theorem C17_legacy_inference_refuted :
+  let cs := expand_with hijack_sample [] in
+  exists o1 o2,
+    Permutation (main_messages cs) o1 /\ Permutation (main_messages cs) o2
+    /\ client_of_ordered legacy_msg_entity (e_pkg hijack_sample) cs o1 = Some [grouping_view hijack_sample]
+    /\ (exists g, client_of_ordered legacy_msg_entity (e_pkg hijack_sample) cs o2 = Some [g]
+                  /\ g_primary_key g = [] /\ g_primary_key (grouping_view hijack_sample) = [bs "fooId"]).
+Proof. exact legacy_inference_refuted. Qed.
+Print Assumptions C17_legacy_inference_refuted.
+
+(* several entity declarations in one file: the result is the concatenation of the single
+   expansions (so every theorem above applies to each part) and is closed as a whole *)
+Theorem C17_file_is_concat : forall es cs, compile_all es = Ok cs ->
+  exists l, Forall2 (fun e c => compile e = Ok c) es l /\ cs = concat l.
+Proof. exact compile_all_inv. Qed.
+Print Assumptions C17_file_is_concat.
+
+Theorem C17_file_closed : forall es cs, compile_all es = Ok cs -> closed cs = true.
+Proof. exact compile_all_closed. Qed.
+Print Assumptions C17_file_closed.
 
 (* the documented names (README: FooKeys, FooQueryService, FooPublishTopic) for
    UpperCamel entity names *)
@@ -179,6 +335,12 @@ Proof.
 Qed.
 Print Assumptions C17_code_tables.
 
+(* the README's documented example (re-read from README.md on every run): the declaration it
+   prints expands, in the model, to every message, field, status value, rpc and path it shows *)
+Theorem C17_readme_example : readme_agrees.
+Proof. exact readme_agreement. Qed.
+Print Assumptions C17_readme_example.
+
 (* the repaired defect (#16): the pre-fix definition-site name ToCamel(name ++ suffix)
    equals the reference-site name exactly for names not ending in a capital — so the fix
    changes nothing that compiled before — and differs for "FooS" *)
@@ -200,23 +362,28 @@ Print Assumptions C17_legacy_naming_refuted.
    an entity whose name ends in a capital too *)
 Definition C17_sample : entity :=
   mkE (bs "foo.v1") (bs "FooS") []
-      [mkK (mkU (bs "fooId") (KKey true None) false) false;
-       mkK (mkU (bs "accountId") (KKey false (Some (bs "account"))) true) true]
-      [mkU (bs "name") (KScalar 9 (bs "string")) true]
+      [mkK (mkU (bs "fooId") (KKey true None None) false false) false;
+       mkK (mkU (bs "accountId") (KKey false (Some (bs "other.v1", bs "account")) (Some (bs "account"))) true false) true]
+      [mkU (bs "name") (KScalar 9 (bs "string")) true false; mkU (bs "note") (KScalar 9 (bs "string")) false true;
+       mkU (bs "address") (KObject (bs "Address")) false false]
       [bs "ACTIVE"; bs "INACTIVE"]
-      [mkEv (bs "Create") [mkU (bs "name") (KScalar 9 (bs "string")) false]; mkEv (bs "Archive") []]
-      [mkC None None [mkM (bs "DoIt") 2 (bs ":fooId/doit") [mkU (bs "fooId") (KKey false None) false] []]]
-      [mkS [] [mkU (bs "name") (KScalar 9 (bs "string")) false]]
-      (Some (mkQ true [bs "ACTIVE"])).
+      [mkEv (bs "Create") [mkU (bs "name") (KScalar 9 (bs "string")) false false]; mkEv (bs "Archive") []]
+      [mkC None None [mkM (bs "DoIt") 2 (bs ":fooId/doit") [mkU (bs "fooId") (KKey false None None) false false] (Some []);
+                      mkM (bs "Download") 1 (bs "dl") [] None]]
+      [mkS [] [mkU (bs "name") (KScalar 9 (bs "string")) false false]]
+      (Some (mkQ true [bs "ACTIVE"]))
+      [(bs "Address", [mkU (bs "street") (KScalar 9 (bs "string")) false false])].
 
 Example C17_example :
-  (exists cs, compile C17_sample = Ok cs /\ length cs = 20%nat)
+  (exists cs, compile C17_sample = Ok cs /\ length cs = 22%nat)
   /\ nth 0 (query_paths C17_sample) [] = bs "/foo/v1/foo_s/q/{foo_id}/{account_id}"
   /\ nth 2 (query_paths C17_sample) [] = bs "/foo/v1/foo_s/q/{foo_id}/{account_id}/events"
   /\ status_values (status_prefix C17_sample) (e_status C17_sample)
      = [(bs "FOO_S_STATUS_UNSPECIFIED", 0); (bs "FOO_S_STATUS_ACTIVE", 1); (bs "FOO_S_STATUS_INACTIVE", 2)]
   /\ Forall (fun k => no_slash (uf_name (k_def k)) = true) (e_keys C17_sample)
-  /\ upper_word (e_name C17_sample) = true.
+  /\ upper_word (e_name C17_sample) = true /\ fields_ok C17_sample = true
+  /\ path_params (query_base C17_sample) = [] /\ command_params_ok C17_sample = true
+  /\ clean_path (query_base C17_sample) = query_base C17_sample.
 Proof.
   split; [eexists; split; [vm_compute; reflexivity|reflexivity]|].
   repeat split; try (vm_compute; reflexivity). repeat constructor.
